@@ -1,7 +1,7 @@
 (** Properties_C12.v — C12: CalDAV/CardDAV routing and discovery work under any
     mount prefix.  Statements only; each is closed by [exact] of a lemma proved
     in RouteProofs.v (routing) or DiscoveryProofs.v (the client chain). *)
-From GW Require Import Base Route RouteProofs.
+From GW Require Import Base Route RouteProofs PropFind Discovery DiscoveryProofs.
 
 (** A request path is classified solely by its depth below the prefix: any
     number of prefix segments [ps] and of rest segments [rs], any segment bytes
@@ -60,3 +60,29 @@ Theorem C12_agree_implies_spec_ok : forall s hprefix b q l o,
   o = serve s hprefix b q -> spec_ok s b q l o = true.
 Proof. exact agree_implies_spec_ok. Qed.
 Print Assumptions C12_agree_implies_spec_ok.
+
+(** The client's discovery chain (FindCurrentUserPrincipal, Find…HomeSet,
+    FindCalendars/FindAddressBooks, ReadDir of every collection; the 308 of the
+    well-known URI followed) against the server, for every mount prefix (any
+    number of segments [h_ps h], either spelling [pt]), every well-formed layout
+    [h] placed under it (any segment bytes, any number of collections and
+    objects, stored paths with or without trailing slashes) and every start
+    point (the well-known URI, the root of the prefix in either spelling, the
+    principal): it returns exactly the backend's paths — principal, home set,
+    all collections, all objects, in the backend's order.
+    Premises: every object reports a content length (webdav.Client cannot list
+    it otherwise) and no resource of the layout sits on the well-known URI. *)
+Theorem C12_discovery : forall s h pt endpoint,
+  hier_ok h = true -> lengths_known h = true -> avoids_well_known s (backend_of h) = true ->
+  start_ok s h endpoint = true ->
+  discover s (spell_prefix (h_ps h) pt) (backend_of h) endpoint = backend_paths (backend_of h).
+Proof. exact discovery. Qed.
+Print Assumptions C12_discovery.
+
+(** The oracle's verdicts for the discovery stage: agreement with the model on
+    a case of the quantifier implies the specification. *)
+Theorem C12_disc_agree_implies_spec_ok : forall s hprefix b endpoint h pt o,
+  disc_in_quantifier s hprefix b endpoint h pt = true ->
+  disc_agrees s hprefix b endpoint o = true -> disc_spec_ok b o = true.
+Proof. exact disc_agree_implies_spec_ok. Qed.
+Print Assumptions C12_disc_agree_implies_spec_ok.
